@@ -20,7 +20,9 @@ CONSTANTS Catalogue,        \* set of subtype strings (values of MystWarnings)
           MaxList, MaxActs,
           DevBreakOnOtherType,   \* a seeded change: the loop stops at the first entry of another type
           DevFallbackText,       \* as-built: xref_missing fallback text depends on the warning node
-          DevTransitionCounts    \* as-built: the footnote transition depends on a warning node
+          DevTransitionCounts,   \* as-built: the footnote transition depends on a warning node
+          DevLoneSection         \* as-built (with docutils' doctitle transform on): a warning node at document level after the
+                                 \* only top-level section keeps that section from being promoted to the document title
 
 (* ---------------------------------------------------------------- part 1 ------------ *)
 Static == {s \in Sites : s.how \in {"literal", "enum", "enum_value", "enum_name"}}
@@ -43,7 +45,8 @@ vars == <<tag, lst, i, verdict, acts, k, outA, outB>>
 ActKinds == {"plain",        \* builds a node, emits a warning appended to the tree
              "logonly",      \* emits a warning that is only logged
              "xref",         \* missing '#'-link with empty text: fallback text
-             "fnote"}        \* duplicate footnote definition as the only non-footnote child
+             "fnote",        \* duplicate footnote definition as the only non-footnote child
+             "docwarn"}      \* emits a warning appended to the DOCUMENT, after its only section
 ActSeqs == UNION {[1..n -> (ActKinds \X Tags)] : n \in 0..MaxActs}
 
 Init == /\ tag \in Tags /\ lst \in Lists /\ i = 1 /\ verdict = "run"
@@ -68,7 +71,7 @@ Emitted(a, l) ==
   LET kind == a[1] t == a[2] sup == MSupp(t, l, 1)
       w == IF sup THEN <<>> ELSE <<<<"warn", t>>>>
   IN CASE kind = "plain" -> <<<<"node", "built">>>> \o w
-       [] kind = "logonly" -> w
+       [] kind \in {"logonly", "docwarn"} -> w
        [] kind = "xref" -> (IF DevFallbackText /\ ~sup THEN <<<<"node", "ref-empty">>>> ELSE <<<<"node", "ref-with-fallback">>>>) \o w
        [] kind = "fnote" -> w \o (IF DevTransitionCounts /\ sup THEN <<>> ELSE <<<<"node", "transition">>>>)
 Render == /\ verdict # "run" /\ k <= Len(acts)
@@ -77,9 +80,17 @@ Render == /\ verdict # "run" /\ k <= Len(acts)
           /\ k' = k + 1
           /\ UNCHANGED <<tag, lst, i, verdict, acts>>
 
-Next == Loop \/ LoopEnd \/ Render
+(* docutils' DocTitle transform at the end of the run: the only top-level section becomes the document title *)
+HasDocWarn(l) == \E n \in 1..Len(acts) : acts[n][1] = "docwarn" /\ ~MSupp(acts[n][2], l, 1)
+Promoted(l) == IF DevLoneSection /\ HasDocWarn(l) THEN <<>> ELSE <<<<"node", "promoted">>>>
+DocTitle == /\ verdict # "run" /\ k = Len(acts) + 1
+            /\ outA' = outA \o Promoted(<<>>) /\ outB' = outB \o Promoted(lst)
+            /\ k' = k + 1
+            /\ UNCHANGED <<tag, lst, i, verdict, acts>>
+
+Next == Loop \/ LoopEnd \/ Render \/ DocTitle
 Spec == Init /\ [][Next]_vars /\ WF_vars(Next)
-Done == verdict # "run" /\ k > Len(acts)
+Done == verdict # "run" /\ k > Len(acts) + 1
 
 (************************************ S ************************************************)
 LoopCorrect == verdict # "run" => (verdict = "suppressed") = SSuppressed(tag, lst)
